@@ -7,7 +7,7 @@ HERE = os.path.dirname(os.path.dirname(os.path.abspath(__file__)))
 
 CLAIMED = {
     "C01": dict(
-        technique="abstract interpretation of grammar actions against the ASDL schema + syntactic IR rules (operator table, operand order, associativity, precedence ladder, provenance of argument layout) + finite-domain evaluation from source of the runtime combinators, memo wrappers, token matchers and literal evaluation",
+        technique="abstract interpretation of grammar actions against the ASDL schema + syntactic IR rules (operator table, operand order, associativity, precedence ladder, provenance of argument layout) + finite-domain evaluation from source of the runtime combinators, memo wrappers, token matchers, literal evaluation and the joining of adjacent literals",
         category="other",
         text="Decides the structural clauses A1-A10 (field names/kinds, no lost capture, operator class vs spelling, operand order, span provenance, associativity, precedence ladder, argument layout, look-aheads covering the FIRST set of what they guard, one column unit, backtracking discipline of the 14 hand-written combinators) and, as necessary conditions of tree equality, the rule sets of C04 (node well-formedness), C08 (token text/positions) and C09 (lexical agreement with CPython). Equality with CPython over all programs is NOT decided; each clause is a necessary condition whose breach changes a field or span on every input reaching the alternative.",
         note="trusts ast.X.__doc__ signatures and ast._Unparser tables of the running interpreter, the decompiler (pyir), the abstract semantics of the supported Python subset (absint) and two small language tables (source order exceptions, precedence ladder)"),
@@ -58,7 +58,7 @@ CLAIMED.update({
     "C14": dict(
         technique="typestate of parser/tokenizer state attributes: set->commit(cut)->consume->reset pairing on the grammar IR and the helper code, balanced counters, structural INDENT/DEDENT pairing",
         category="other",
-        text="Decides state neutrality at statement end (necessary for whole = concatenation of parts): every state attribute written outside a constructor is position-keyed, a balanced counter, or a flag whose setter is committed by a cut and whose consumer resets it in the same alternative; with-macro capture swallows a balanced INDENT/DEDENT pair; NEWLINE only at bracket depth 0 and outside f-string literal mode; module body = in-order concatenation of statement+. The whole-vs-parts equality itself is not decided.",
+        text="Decides state neutrality at statement end (necessary for whole = concatenation of parts): every state attribute written outside a constructor is position-keyed, a balanced counter, or a flag whose setter is committed by a cut and whose consumer resets it in the same alternative; with-macro capture swallows a balanced INDENT/DEDENT pair; NEWLINE only at bracket depth 0 and outside f-string literal mode; a statement starts only at depth exactly 0 (the depth is never reset); the text handed to the scanner is the caller's text (no end-of-input normalisation); an indented with-macro capture stays inside its block (known finding D42); module body = in-order concatenation of statement+. The whole-vs-parts equality itself is not decided.",
         note="memo entries are keyed by token index so cannot be hit across statements; the CLASSIFIED table is the trusted reading of each attribute"),
     "C15": dict(
         technique="partial evaluation: residual programs under verbose=False/True after erasing print-only effects must be syntactically equal (plus a locally checked lemma); who-may-read rule and monotone-gate shape for py_version",
@@ -94,7 +94,7 @@ CLAIMED.update({
     "C08": dict(
         technique="per-construction-site symbolic check that token text is the slice of its span, accumulation/position pairing, regex group/width facts from the folded master pattern",
         category="other",
-        text="Decides for every TokenInfo(...) site of tokenize.py that text == line[start:end] (slice, single character, stripped prefix, empty text, delimiter placed at the end of the preceding middle token), that multi-line accumulation appends exactly the unread slice and moves the position to its end, that every alternative of the master pattern is one named group at least one character wide and every advance yields a token / starts an accumulation / is a continuation, that INDENT/DEDENT pair with pushes/pops and the stream ends DEDENT* ENDMARKER, that position writes are monotone, that pending text is flushed before every f-string brace, that an unterminated one-line string raises, and that the continuation test is exact over all line endings (finite domain).",
+        text="Decides for every TokenInfo(...) site of tokenize.py that text == line[start:end] (slice, single character, stripped prefix, empty text, delimiter placed at the end of the preceding middle token), that multi-line accumulation appends exactly the unread slice and moves the position to its end, that every alternative of the master pattern is one named group at least one character wide and every advance yields a token / starts an accumulation / is a continuation, that INDENT/DEDENT pair with pushes/pops and the stream ends DEDENT* ENDMARKER, that position writes are monotone, that pending text is flushed before every f-string brace, that the rest of a line is joined onto an open literal only when the literal is triple-quoted or the line is continued and never after the f-string scanner matched a delimiter, that an unterminated one-line string or f-string text part raises, and that the continuation test is exact over all line endings (finite domain).",
         note="a regex match starts where it was asked to; synthetic MACRO_PARAM tokens of the parser-side wrapper are outside C08"),
     "C09": dict(
         technique="constant folding of the tokenizer's tables + regex automata (equivalence, prefix-freeness, intersection emptiness) against the running interpreter's tokenize/token tables; finite-domain evaluation of the indentation arithmetic; token-pair adjacency of the Python fragment",
@@ -112,8 +112,8 @@ CLAIMED.update({
     "C17": dict(
         technique="structural rules over the generator's source: handler exhaustiveness (visitor dispatch vs node classes), template extraction of the emitted call text with provenance of its holes, path rules over the emitting methods (must-pass-through / ordering per path), finite-domain evaluation of the nullable and first-graph helpers, path-set rules over the runtime combinators and memo wrappers",
         category="other",
-        text="Decides NAMED STRUCTURAL CLAUSES only, each a necessary condition of PEG semantics whose breach changes what some grammar's parser accepts or returns: every node class the grammar reader builds has a call-maker handler (T1); each PEG operator's emitted call names that operator's runtime combinator with element/separator in the right order and one-tuple wrapping exactly for the operators that may succeed falsy (T4); every emitted alternative is condition -> action -> reset, with the cut flag and its early exit exactly when the alternative has a cut, the diagnostic gate exactly when it mentions an invalid_ rule, loop helpers collecting and re-marking, ordered choice over all alternatives (T3); nullable analysis and first-graph agree with their definitions on their finite abstract domains, the leader lies on every cycle (T5, T6); the runtime combinators restore positions as PEG prescribes (R-combinators), the memo wrappers run the rule body only on a miss keyed by position, rule and arguments (W2), and the generator facts GF1-GF14. Equivalence of generated parsers with a PEG interpreter over all grammars and token strings is NOT decided; a generator edit outside these clauses is not seen.",
-        note="trusts the operator<->combinator table written in the check, sccutils' SCC algorithm (apart from GF10), and explores the per-item loops of the emitting methods for 0-2 iterations; assumes the property's own well-formedness side conditions on grammars"),
+        text="Decides NAMED STRUCTURAL CLAUSES only, each a necessary condition of PEG semantics whose breach changes what some grammar's parser accepts or returns: every node class the grammar reader builds has a call-maker handler (T1); each PEG operator's emitted call names that operator's runtime combinator with element/separator in the right order and one-tuple wrapping exactly for the operators that may succeed falsy (T4); every emitted alternative is condition -> action -> reset, with the cut flag and its early exit exactly when the alternative has a cut, the diagnostic gate exactly when it mentions an invalid_ rule, loop helpers collecting and re-marking, ordered choice over all alternatives (T3); nullable analysis and first-graph agree with their definitions on their finite abstract domains, the leader lies on every cycle, and the two graph routines of sccutils give the classes of mutual reachability / the first-repeat walks on every digraph over three vertices and a sample over four (T5, T6); the compact whole-rule form is taken only without invalid_ alternatives; the runtime combinators restore positions as PEG prescribes (R-combinators), the memo wrappers run the rule body only on a miss keyed by position, rule and arguments (W2), and the generator facts GF1-GF14. Equivalence of generated parsers with a PEG interpreter over all grammars and token strings is NOT decided; a generator edit outside these clauses is not seen.",
+        note="trusts the operator<->combinator table written in the check and explores the per-item loops of the emitting methods for 0-2 iterations; assumes the property's own well-formedness side conditions on grammars"),
 })
 
 NOT_APPLICABLE = {}
